@@ -494,10 +494,32 @@ def same_value(a, b) -> bool:
 _reported_known = set()
 
 
+def _binders(n) -> set:
+    out = set()
+    for x in ast.walk(n):
+        if isinstance(x, ast.Lambda):
+            out |= {a.arg for a in x.args.args}
+        if isinstance(x, ast.comprehension):
+            out |= {m.id for m in ast.walk(x.target) if isinstance(m, ast.Name)}
+    return out
+
+
+def _called_lambda_capture_risk(lam_src: str) -> bool:
+    """A literal called lambda whose argument mentions a name that a binder inside its body binds: the same open
+    finding of _resolve_called_lambdas as for helpers (over-approximation; only consulted when the oracle failed)."""
+    t = ast.parse(lam_src, mode="eval")
+    for c in ast.walk(t):
+        if isinstance(c, ast.Call) and isinstance(c.func, ast.Lambda):
+            used = {n.id for a in c.args for n in ast.walk(a) if isinstance(n, ast.Name)}
+            if used & _binders(c.func.body):
+                return True
+    return False
+
+
 def classify_known(case: Case) -> Optional[str]:
     """Open findings of C05 that the proposed fixes deliberately leave (see report): argument names captured by a
     binder that stays inside the helper body; free names of a helper body captured by the passed lambda."""
-    if "inner-binder-captures-argument" in case.tags:
+    if "inner-binder-captures-argument" in case.tags or _called_lambda_capture_risk(case.lam):
         return "C05-open-argument-captured-by-inner-binder"
     if "helper-free-name" in case.tags:
         return "C05-open-helper-free-name-captured"
